@@ -102,14 +102,14 @@ READERS = ["blocks", "get_block:type", "get_block:absent", "get_block:0", "getit
            "calibrationData", "has_data3D", "has_force_and_torque", "has_events", "has_emg", "has_force_platforms_data", "len", "nBytes", "eq", "repr", "copy", "getitem:type"]
 
 
-def case(seq, op, N, live):
+def case(seq, op, N, live, free_offsets=None):
     def h(I):
         def P(label, cond, note=""):
             return I.prove(f"C08.{label}", cond, note)
         fs = I.fs()
         tb = I.mod("tdfBlock")
         Tdf = I.mod("basictdf").Tdf
-        model, spec = C.make_prestate(I, fs, "f.tdf", N, live)
+        model, spec = C.make_prestate(I, fs, "f.tdf", N, live, free_offsets=free_offsets)
         C.install_recorders(I)
         if op == "eq":
             m2, _ = C.make_prestate(I, fs, "g.tdf", N, live, tag="q")
@@ -305,6 +305,11 @@ def instances(tier):
                 inside, writable = expected_mode(seq)
                 goal = ("either" if writable is None else ("allowed" if writable else "forbidden")) if op in MUTATORS else "reader"
                 out.append(Instance(f"N{N}.{''.join(seq) or 'fresh'}.{op}", case(seq, op, N, live), goals=[goal]))
+    # readers (and merely entering / leaving a write context) on a file whose unused slots
+    # carry arbitrary offsets
+    for seq in [(), ("A",), ("E",), ("A", "E"), ("A", "E", "X"), ("A", "E", "X", "E")]:
+        for op in ["blocks", "len", "has_events", "repr"] + ([] if q else ["get_block:type", "nBytes", "copy"]):
+            out.append(Instance(f"N3.free_offsets.{''.join(seq) or 'fresh'}.{op}", case(seq, op, 3, (16,), free_offsets="arbitrary"), goals=["reader"]))
     # histories in which a reader is called through the object between the mode events
     for seq in sequences(4 if q else 5, with_reader=True) + ([("A", "G", "E", "X", "E"), ("A", "E", "X", "G", "E"), ("G", "A", "E", "X", "E")] if q else []):
         for op in ["add_block", "remove_block", "set:events"] + ([] if q else ["replace_block"]):
